@@ -117,7 +117,7 @@ def gen_img(r):
             pal = r.random() < 0.4
         ims.append({"x": x, "y": y, "nc": nc, "nt": nt, "il": il, "comp": comp, "data": rbytes(r, x * y * nc),
                     "pal": rbytes(r, 768) if pal else None})
-    return {"kind": "img", "w": w, "ril": r.choice([0, 1, 2]), "objs": ims}
+    return {"kind": "img", "w": w, "ril": r.choice([-1, 0, 1, 2]), "objs": ims}
 
 
 def gen_pal(r):
@@ -324,6 +324,20 @@ def legacy_files():
 LOSSY = {12, 13, 14, 15, 16}     # DFTAG_IMC, DFTAG_JPEG, DFTAG_GREYJPEG, DFTAG_JPEG5, DFTAG_GREYJPEG5
 
 
+def to_pixel(hexdata, il, X, Y, C):
+    """GR hands an image over in its own interlace when none is requested; the older calls in pixel interlace"""
+    if il == 0 or hexdata in ("-", "fail") or len(hexdata) != 2 * X * Y * C:
+        return hexdata
+    b = bytes.fromhex(hexdata)
+    out = bytearray(len(b))
+    for y in range(Y):
+        for x in range(X):
+            for c in range(C):
+                src = (y * C + c) * X + x if il == 1 else (c * Y + y) * X + x
+                out[(y * X + x) * C + c] = b[src]
+    return out.hex()
+
+
 def compare_legacy(R):
     """dfsd == sd (same datasets, same order); nc == sd with the type renamed; every dfr8 / df24 image is the
     gr image of the same position among the images of that component count."""
@@ -356,16 +370,18 @@ def compare_legacy(R):
     gr = [x for x in v["gr"] if x[0].isdigit() and len(x) > 7]
     for view, nc_ in (("dfr8", 1), ("df24", 3)):
         cand = [g for g in gr if int(g[3]) == nc_]
-        j = 0
+        used = set()
         for im in [x for x in v[view] if x[0].isdigit()]:
             x_, y_ = im[1], im[2]
             data = im[4] if len(im) > 4 else None
             ok = False
-            while j < len(cand):
-                g = cand[j]
-                j += 1
-                if g[1] == x_ and g[2] == y_ and ((int(x_), int(y_)) in lossy or data is None or g[6] == data):
+            for j, g in enumerate(cand):
+                if j in used:
+                    continue
+                if g[1] == x_ and g[2] == y_ and ((int(x_), int(y_)) in lossy or data is None or
+                                                 to_pixel(g[6], int(g[5]), int(x_), int(y_), nc_) == data):
                     ok = True
+                    used.add(j)
                     break
             if not ok:
                 bad.append("%s image %s (%sx%s) is not shown with the same content by GR" % (view, im[0], x_, y_))
@@ -443,6 +459,17 @@ def shrink(ctx, c, limit=25):
 # known findings: signatures computed from the failing case itself
 # --------------------------------------------------------------------------------------------
 def signature(c, bad):
+    """'gr-reads-nonpixel-interlaced-rig': every disagreement is the GR view of a 24-bit image that DF24 stored with
+    line or component interlace (GRreadimage takes the stored bytes for pixel-interlaced data)"""
+    if c["kind"] == "img" and c["w"] == "df" and c["ril"] >= 0:
+        idx = set()
+        for b in bad:
+            m = re.match(r"^(expected|library)\s+gr (\d+) ", b)
+            if not m:
+                return None
+            idx.add(int(m.group(2)))
+        if idx and all(k < len(c["objs"]) and c["objs"][k]["nc"] == 3 and c["objs"][k]["il"] != 0 for k in idx):
+            return "gr-reads-nonpixel-interlaced-rig"
     return None
 
 
